@@ -13,6 +13,7 @@ import (
 	"time"
 
 	"github.com/arloliu/go-secs/v2/hsms"
+	"github.com/arloliu/go-secs/v2/secs2"
 	"github.com/arloliu/go-secs/v2/zverif/vsched"
 
 	"verif/e2"
@@ -414,6 +415,70 @@ func scenarios() []e3.Scenario {
 				e.Note("redialed=%v reselected=%v", p2 != nil, reselected)
 				if p2 != nil && !p2.RemoteClosed() {
 					e.Violate("link-alive-after-close", "Close() has returned but the connection the reconnect loop dialed meanwhile is still open (peer answered its Select.req: %v): the endpoint is closed and a generation of it lives on", reselected)
+				}
+				m.final(e, "end")
+			},
+		})
+	}
+	// S7: active, Selected; the application sends (fire-and-forget, synchronous write) while the peer
+	// drops the link, accepts the re-dial and selects the new generation. A writer that was pinned to
+	// the old generation and only now learns that its write failed must not take the NEW generation
+	// down: nothing happened on that link.
+	{
+		var m *mon
+		var p2 *sim.Conn
+		var reselected atomic.Bool
+		var sendErr error
+		out = append(out, e3.Scenario{
+			Name: "active-send-vs-drop-reselect", Horizon: 40 * time.Second,
+			Setup: func(e *e3.Env) {
+				m, p2, sendErr = &mon{}, nil, nil
+				reselected.Store(false)
+				o := e2.Opts{Active: true, Conn: connOpts(hsms.WithWriteTimeout(2 * time.Second))}
+				e.W.NewConn(o)
+				e.W.C.AddConnStateChangeHandler(m.handler(e.W.C))
+				if err := e.W.Establish(o); err != nil {
+					panic(err)
+				}
+				m.prev = hsms.SelectedState
+				pc := e.W.Peer
+				e.Thread("1app", func() {
+					_, sendErr = e.W.C.SendDataMessage(context.Background(), 1, 3, false, secs2.A("x"))
+				})
+				e.Thread("2peer", func() {
+					_ = pc.Close()
+					p2 = e.W.Net.WaitPeer(3 * time.Second) // the re-dial (backoff 100 ms)
+					if p2 == nil {
+						return
+					}
+					_ = p2.SetReadDeadline(time.Now().Add(30 * time.Second))
+					f, ok := readFrame(p2)
+					if !ok || f.SType != peer.SSelectReq {
+						return
+					}
+					if _, err := p2.Write(peer.Ctrl(peer.SSelectRsp, f.Session, 0, 0, f.Sys).Bytes()); err != nil {
+						return
+					}
+					reselected.Store(true)
+					var b [64]byte
+					for {
+						if _, err := p2.Read(b[:]); err != nil { // until the library closes the socket (or the deadline)
+							return
+						}
+					}
+				})
+				// one clock step: the next timer (after the drop: the loop's 100 ms backoff) fires while a
+				// delayed application thread stays where it is — a writer descheduled across the reconnect
+				e.Thread("3clock", func() { vsched.Tick() })
+			},
+			Monitor: func(e *e3.Env) { m.edge(e) },
+			Finish: func(e *e3.Env) {
+				m.edge(e)
+				e.Note("sendErr=%v redialed=%v reselected=%v", sendErr != nil, p2 != nil, reselected.Load())
+				if reselected.Load() {
+					if st := m.state(e); st != hsms.SelectedState || p2.RemoteClosed() {
+						e.Violate("new-generation-dropped", "the peer dropped generation 1, accepted the re-dial and answered its Select.req; nothing happened on generation 2's link since (T7/T8/T6 are 5-10 s away, no linktest), yet State()=%v and the library closed generation 2's socket: %v (the application's send returned %v)", st, p2.RemoteClosed(), sendErr)
+					}
 				}
 				m.final(e, "end")
 			},
